@@ -669,7 +669,7 @@ func compareHandler(c *caseSpec, r *caseResult, w *world, msg []byte, implClass,
 	case "txreq", "txreq-reward":
 		admitted := ""
 		for _, call := range m.Calls {
-			if strings.HasPrefix(call, "admit ") {
+			if strings.HasPrefix(call, "pool ") {
 				admitted = call
 			}
 		}
